@@ -55,9 +55,9 @@ class ClckEngine:
 			prev = 0
 			for c in cuts:
 				if rng.random() < 0.5:
-					ops.append({"op": "link_add", "dt": c - prev})
+					ops.append({"op": "link_add", "dt": c - prev, "rebind": rng.random() < 0.5})
 				else:
-					ops.append({"op": "link_del", "dt": c - prev, "idx": rng.randrange(4)})
+					ops.append({"op": "link_del", "dt": c - prev, "idx": rng.randrange(4), "rebind": rng.random() < 0.5})
 				prev = c
 			if s != nseg - 1:
 				ops.append({"op": "stop", "dt": seg_ns - prev})
@@ -80,6 +80,10 @@ class ClckEngine:
 					else:
 						d = rng.randrange(1, P_NOM // 2)
 					durs[str(k)] = d
+		if rng.random() < 0.12:
+			# a handler that takes seconds (hundreds of frames), so that a stop() is likely to
+			# arrive while it is still running
+			durs[str(rng.randrange(max(1, min(nt, 40))))] = rng.randrange(1_000_000_000, 2_600_000_000)
 		faults = {}
 		if fk["stall"]:
 			st = {}
@@ -182,12 +186,19 @@ class ClckEngine:
 						if next_link < len(all_links):
 							l = all_links[next_link]
 							next_link += 1
-							gen.clck_links.append(l)
+							if op.get("rebind"):
+								# attach by assigning a new list to the public attribute
+								gen.clck_links = list(gen.clck_links) + [l]
+							else:
+								gen.clck_links.append(l)
 							sim.record("ctl", op="link_add", link=l.ident)
 					elif o == "link_del":
 						if gen.clck_links:
 							l = gen.clck_links[op.get("idx", 0) % len(gen.clck_links)]
-							gen.clck_links.remove(l)
+							if op.get("rebind"):
+								gen.clck_links = [x for x in gen.clck_links if x is not l]
+							else:
+								gen.clck_links.remove(l)
 							sim.record("ctl", op="link_del", link=l.ident)
 				sim.record("ctl", op="stop-call")
 				gen.stop()
@@ -196,7 +207,12 @@ class ClckEngine:
 
 			ct = sim.spawn(controller, "ctl")
 			sim.start_thread(ct)
-			sim.run()
+			# bounded: a generator that cannot be stopped any more must not hang the run
+			horizon = sum(int(o.get("dt", 0)) for o in plan["ops"]) + sum(durs.values()) \
+				+ sum(sum(d.values()) for d in sim.faults.script.values()) + 20 * P_NOM
+			sim.run(until=horizon)
+			if sim.heap or any(t.state == "runnable" for t in sim.threads):
+				sim.run(until=horizon + 50 * P_NOM)  # what still ticks now ticks after the final stop()
 			ended = any(k == "ctl" and kw.get("op") == "end" for _, k, kw in sim.history)
 			viols = check_history(sim.history, cfg, ended, sim.blocked_threads(), res.probes)
 		finally:
